@@ -461,3 +461,81 @@ func (h *c11History) checkSnapshot(res *c11Result, phase string, snap peers.Veri
 		}
 	}
 }
+
+// orphans finds connections whose own remove found nothing to unlink although, per the
+// records, nothing had removed, replaced or closed them: their send channel was never closed.
+func (h *c11History) orphans() (list []*c11ConnInfo, stale map[int32]*c11Op) {
+	stale = map[int32]*c11Op{}
+	for _, c := range h.conns {
+		if c.add.pan != 0 || len(c.rems) == 0 {
+			continue
+		}
+		r0 := c.rems[0]
+		if r0.pan != 0 || r0.hk[0] != 0 || r0.wstop {
+			continue
+		}
+		al := h.adds[[2]int32{int32(c.sess), c.peer}]
+		k := sort.Search(len(al.conns), func(i int) bool { return al.conns[i].add.call > r0.ret })
+		if k == 0 || al.conns[k-1] != c || (k > 1 && al.pmRet[k-2] >= c.add.call) {
+			continue // another Add of the same peer id may have replaced it
+		}
+		cl := h.closes[c.sess]
+		kc := sort.Search(len(cl.ops), func(i int) bool { return cl.ops[i].call > r0.ret })
+		if kc > 0 && cl.pmRet[kc-1] >= c.add.call {
+			continue // CloseSession may have closed it
+		}
+		list = append(list, c)
+		for _, r := range h.removers[c.sess] {
+			if r.call > c.add.ret {
+				break
+			}
+			if r.ret >= c.add.call {
+				stale[c.idx] = r
+				break
+			}
+		}
+	}
+	sort.Slice(list, func(i, j int) bool { return list[i].add.call < list[j].add.call })
+	return
+}
+
+// checkWriters judges the census of writer goroutines taken at final quiescence.
+func (h *c11History) checkWriters(res *c11Result, parked, other, round int) {
+	st := h.st
+	orph, stale := h.orphans()
+	withWindow := 0
+	for _, c := range orph {
+		if stale[c.idx] != nil {
+			withWindow++
+		}
+	}
+	res.Counters["orphaned_conns_remove_found_nothing"] += len(orph)
+	res.Counters["orphaned_conns_with_stale_remover_window"] += withWindow
+	res.Counters["writer_goroutines_running_at_final_quiescence"] += other
+	newLeaks := parked - st.lastParked
+	st.lastParked = parked
+	if parked > res.Counters["writer_goroutines_parked_at_final_quiescence_max"] {
+		res.Counters["writer_goroutines_parked_at_final_quiescence_max"] = parked
+	}
+	if newLeaks <= 0 {
+		return
+	}
+	res.Counters["writer_goroutines_leaked"] += newLeaks
+	var wit []any
+	for _, c := range orph {
+		if len(wit) >= 2 {
+			break
+		}
+		w := map[string]any{"connection": h.connJSON(c)}
+		if r := stale[c.idx]; r != nil {
+			w["stale_remover_in_its_wait_window_during_the_add"] = st.opJSON(r)
+			w["session_history"] = h.around(c.sess, r.call, c.rems[0].ret, 16)
+		}
+		wit = append(wit, w)
+	}
+	res.violate("leak:writer-goroutine-never-closed",
+		fmt.Sprintf("%d writer goroutines of the hub (Hub.Add.func1) are parked on a send channel that nobody can close any more (round %d, every remove has returned, hub maps empty); %d connections of this round had their remove find nothing to unlink although nothing had removed, replaced or closed them (%d of them were added while a remover of the same session was between unlink and return)",
+			newLeaks, round, len(orph), withWindow),
+		map[string]any{"spec": st.spec, "round": round},
+		map[string]any{"parked_writers_total": parked, "new_this_round": newLeaks, "orphaned_connections_this_round": len(orph), "witnesses": wit})
+}
